@@ -305,6 +305,35 @@ theorem step_isolated (c : Cfg) (s s' : Sys) (op : Op) (inv : Inv s) (ht : i2eCo
         · exact ih hxs e1 e2
   exact ho (this _ hnd h1 h2)
 
+/-- a history run in two parts -/
+theorem run_append (c : Cfg) : ∀ (a b : List Op) (s : Sys),
+    run c s (a ++ b) = ((run c (run c s a).1 b).1, (run c s a).2 || (run c (run c s a).1 b).2)
+  | [], b, s => by simp [run]
+  | op :: a, b, s => by
+    simp only [List.cons_append, run]
+    rw [run_append c a b]
+    simp [Bool.or_assoc]
+
+/-- **isolation over histories**: along any history outside the trigger, a page claimed by `o` keeps
+    its content (and `o` keeps its claim) as long as `o` itself does not operate -/
+theorem run_isolated (c : Cfg) : ∀ (ops : List Op) (s : Sys), Inv s → (run c s ops).2 = false →
+    ∀ (p : Nat) (o : Owner), (p, o) ∈ s.own → (∀ op ∈ ops, writer op ≠ o) →
+    (run c s ops).1.data.get p = s.data.get p ∧ (p, o) ∈ (run c s ops).1.own
+  | [], s, _, _, p, o, hown, _ => ⟨rfl, hown⟩
+  | op :: ops, s, inv, h, p, o, hown, hw => by
+    simp only [run, Bool.or_eq_false_iff] at h ⊢
+    have hw' : ∀ op' ∈ ops, writer op' ≠ o := fun op' hm => hw op' (List.mem_cons_of_mem _ hm)
+    cases hs : step c s op with
+    | error e =>
+      simp only [hs] at h ⊢
+      exact run_isolated c ops s inv h.2 p o hown hw'
+    | ok s1 =>
+      simp only [hs] at h ⊢
+      have r := step_ok c s s1 op inv h.1 hs
+      have hiso := step_isolated c s s1 op inv h.1 hs p o (fun e => hw op List.mem_cons_self e.symm) hown
+      have ih := run_isolated c ops s1 r.inv h.2 p o (r.keep _ hown) hw'
+      exact ⟨ih.1.trans hiso, ih.2⟩
+
 /-- **allocation is monotone**: no engine op clears a bitmap bit (the engine never frees a page) -/
 theorem step_mono (c : Cfg) (s s' : Sys) (op : Op) (ok : PgOK s.pg) (h : step c s op = .ok s') :
     ∀ p, p ∈ s.pg.bits → p ∈ s'.pg.bits := by
